@@ -21,6 +21,7 @@ import z3
 from pyvc import ops
 from pyvc.ops import Unsupported
 from pyvc.state import HeapObj
+from pyvc.symex import Outcome
 from pyvc.values import NONE, VBool, VExt, VFunc, VInt, VNoneT, VReal, VRef, VSeq, VStr, VTuple, VUnk, ext_sort, fresh_name
 
 from contracts import c03_exec as X
@@ -130,6 +131,41 @@ def register_refuter():
 
 STR_GROUP = {}      # id of a str term that is the text of a regex group -> group facts (contracts/c04_regex.py)
 FLOAT_FACTS = {}    # id of a Float term -> {"nan": bool}
+
+
+def _occurs(term, var):
+    seen, stack = set(), [term]
+    while stack:
+        x = stack.pop()
+        if x.get_id() in seen:
+            continue
+        seen.add(x.get_id())
+        if z3.eq(x, var):
+            return True
+        if z3.is_quantifier(x):
+            stack.append(x.body())
+        elif z3.is_app(x):
+            stack.extend(x.children())
+    return False
+
+
+def _int_subterms_without(term, avoid, need):
+    """Maximal integer subterms of `term` that mention `need` but not `avoid` (candidates for the folded element function)."""
+    out, seen = [], set()
+
+    def walk(x):
+        if x.get_id() in seen:
+            return
+        seen.add(x.get_id())
+        if z3.is_int(x) and not _occurs(x, avoid):
+            if _occurs(x, need) and all(not z3.eq(x, y) for y in out):
+                out.append(x)
+            return
+        if z3.is_app(x):
+            for ch in x.children():
+                walk(ch)
+    walk(term)
+    return out
 
 
 def clamp(t):
@@ -287,8 +323,103 @@ class IfaceExecutor(X.UnitsExecutor):
     def symbolic_for(self, s, st, it):
         spec = self.loop_spec(s)
         if spec is None or spec.inv is None:
+            try:
+                r = self.fold_summary(s, st, it)
+            except (Unsupported, z3.Z3Exception):
+                r = None
+            if r is not None:
+                return r
             st.assume(OVER)
         return super().symbolic_for(s, st, it)
+
+    def fold_summary(self, s, st, it):
+        """Exact summary of an accumulator loop over a symbolic sequence (no contract needed, any body shape):
+        the body is executed once for an arbitrary index i with every integer accumulator replaced by a fresh symbol A; if the
+        body has no other effect (no exception, no heap write, no break / return / yield) and z3 proves that one step is
+        `A' = max(A, g(i))` with g independent of A and g(i) >= the initial value, the loop computes
+        seq_max(k |-> g(k), n, initial) (FOLD-MAX: induction on n, part of the trusted reasoning); `A' = A + 1` gives initial + n.
+        Returns the post-loop outcomes, or None when the loop is not of that kind (then it is cut and marked over-approximated)."""
+        view = self.seq_view(st, it)
+        if view is None or s.orelse or self._has_yield(s.body):
+            return None
+        n, elem = view
+        tnames = {x.id for x in ast.walk(s.target) if isinstance(x, ast.Name)}
+        names = sorted(self.assigned_names(s.body) - tnames)
+        accs, temps = {}, []
+        body = st.fork()
+        i = z3.Int(fresh_name("i"))
+        body.assume(z3.And(i >= 0, i < n))
+        for name in names:
+            cur = st.lookup(name)
+            if cur is None:
+                temps.append(name)
+            elif isinstance(cur, VInt) and not cur.is_bv:
+                a = z3.Int(fresh_name(f"acc_{name}"))
+                accs[name] = (a, ops.int_term(cur))
+                body.bind(name, VInt(a))
+            else:
+                return None
+        if not accs:
+            return None
+        base_len = len(body.pc)
+        heap0 = dict(body.heap)
+        self.sinks.append([])
+        try:
+            outs = []
+            for s3 in self.assign(s.target, elem(i), body):
+                outs.extend(self.exec_block(s.body, s3))
+        finally:
+            sink = self.sinks.pop()
+        if sink or not outs or any(o.kind not in ("fall", "continue") for o in outs):
+            return None
+        for o in outs:
+            if any(o.st.heap.get(r) is not h for r, h in heap0.items()) or len(o.st.yielded) != len(body.yielded):
+                return None
+        post = {}
+        for name, (a, init) in accs.items():
+            f = None
+            for o in reversed(outs):
+                v = o.st.lookup(name)
+                if not isinstance(v, VInt) or v.is_bv:
+                    return None
+                c = z3.And(o.st.pc[base_len:] + [z3.BoolVal(True)])
+                f = ops.int_term(v) if f is None else z3.If(c, ops.int_term(v), f)
+            others = [x for nm, (x, _i) in accs.items() if nm != name]
+            if any(_occurs(f, x) for x in others):
+                return None
+            summary = None
+            # count: A' == A + 1
+            if self._valid(body.pc[:base_len], f == a + 1):
+                summary = init + n
+            else:
+                cands = _int_subterms_without(f, a, i)
+                for g in cands[:12]:
+                    if self._valid(body.pc[:base_len], z3.And(f == z3.If(g > a, g, a), g >= init)):
+                        lam = z3.Lambda([K], z3.substitute(g, (i, K)))
+                        summary = SEQMAX(lam, n, init)
+                        break
+            if summary is None:
+                if self._valid(body.pc[:base_len], f == a):
+                    summary = init
+                else:
+                    return None
+            post[name] = summary
+        after = st
+        after.assume(n >= 0)
+        for name, t in post.items():
+            after.bind(name, VInt(t))
+        for name in temps:
+            after.bind(name, VUnk(f"loop-temp:{name}"))
+        for name in tnames:
+            after.bind(name, VUnk(f"loop-target:{name}"))
+        return [Outcome("fall", after)]
+
+    def _valid(self, pc, goal):
+        sol = z3.Solver()
+        sol.set("timeout", 3000)
+        sol.add(*pc)
+        sol.add(z3.Not(goal))
+        return sol.check() == z3.unsat
 
     def s_While(self, s, st):
         spec = self.loop_spec(s)
